@@ -329,7 +329,20 @@ class Sys_:
         r = self.parser.get_fcp(str(srcdir / "main.fcp"), lg)
         return r
 
-    def reference_verdict(self, srcdir: Path, gens, strip_struct=None):
+    def late_check(self, verifier, target):
+        """What a caller may do with the verifier it handed to a manager: register one more check on it (rejects the
+        struct named target)."""
+        from fcp.verifier import register
+        from fcp.error import error
+        from fcp.result import Ok
+
+        def check(self_, fcp, node):
+            if getattr(node, "name", None) == target:
+                return error(f"late caller check rejects {target}", node=None)
+            return Ok(())
+        register(verifier, "struct")(check)
+
+    def reference_verdict(self, srcdir: Path, gens, strip_struct=None, base="general", late=None):
         """accept | reject | crashed | unparsable — from an independently built verifier on a fresh tree."""
         r = self.parse_files(srcdir)
         if r.is_err():
@@ -339,7 +352,9 @@ class Sys_:
             for s in tree.structs:
                 if s.name == strip_struct:
                     s.fields = []
-        v = self.verifier.make_general_verifier()
+        v = self.verifier.make_general_verifier() if base == "general" else self.verifier.Verifier()
+        if late is not None:
+            self.late_check(v, late)
         for g, cfg in gens:
             # fcp_simgen's checks close over the configuration that was current when they were registered
             saved = self.mods["simgen"].CONFIG["checks"]
@@ -425,7 +440,8 @@ def gen_ops(rng, tier_cfg):
         ops.append(["mkdir"])
     n = rng.randint(3, 8)
     for i in range(n):
-        k = weighted(rng, [("gen", 7), ("touch", 1.5), ("rm", 0.7), ("mangle", 1.2 if i > 0 else 0), ("sibling", 0.8 if i > 0 else 0)])
+        k = weighted(rng, [("gen", 7), ("touch", 1.5), ("rm", 0.7), ("mangle", 1.2 if i > 0 else 0), ("sibling", 0.8 if i > 0 else 0),
+                           ("symlink", 0.5 if i > 0 else 0)])
         if k == "gen":
             g = rng.choice(enabled)
             inj = None
@@ -444,7 +460,10 @@ def gen_ops(rng, tier_cfg):
             via = rng.choice(["cli", "api"])
             if inj == "struct_without_fields":
                 via = "api"
-            op = ["gen", g, rng.randrange(1 << 30), inj, via, rng.choice(["fresh", "reused"]) if via == "api" else "fresh"]
+            # fresh_empty: a manager built on a verifier without any check of its own (Verifier()); fresh_late: the caller
+            # registers one more (rejecting) check on its verifier AFTER it built the manager with it
+            op = ["gen", g, rng.randrange(1 << 30), inj, via,
+                  weighted(rng, [("fresh", 4), ("reused", 4), ("fresh_empty", 2), ("fresh_late", 1)]) if via == "api" else "fresh"]
             if fault_run:
                 op.append([rng.randint(1, 6), rng.choice([errno.ENOSPC, errno.EIO, errno.EACCES])])
             else:
@@ -457,6 +476,14 @@ def gen_ops(rng, tier_cfg):
             # generation again: an accepted command may not touch it
             prev_gens = [o for o in ops if o[0] == "gen"]
             ops.append(["sibling", rng.choice([".tmp", ".bak", "~", ".orig", ".new", ".swp", ".part", ".1"]), rng.randrange(1 << 30)])
+            if prev_gens:
+                ops.append(list(rng.choice(prev_gens)))
+        elif k == "symlink":
+            # an existing file (typically an earlier output) becomes a symbolic link to a file kept OUTSIDE the output
+            # directory (a shared header, a file under version control elsewhere), then the same generation is repeated:
+            # what is read at the returned path afterwards must be the returned contents
+            prev_gens = [o for o in ops if o[0] == "gen"]
+            ops.append(["symlink", rng.randrange(1 << 30)])
             if prev_gens:
                 ops.append(list(rng.choice(prev_gens)))
         elif k == "mangle":
@@ -541,6 +568,18 @@ def _execute(sysm, clock, ops, work, tier, probes, tr, distinct):
                 last_change[victim] = (oi, "touch")
                 probes["sibling_of_existing_file"] += 1
             continue
+        if op[0] == "symlink":
+            snap = snapshot(out) or {}
+            files = sorted(k for k, v in snap.items() if v[0] == "file" and not (out / k).is_symlink())
+            if files:
+                victim = files[op[1] % len(files)]
+                target = work / f"outside{oi}.dat"
+                target.write_bytes((out / victim).read_bytes() + b"\n/* kept elsewhere */\n")
+                (out / victim).unlink()
+                os.symlink(str(target), str(out / victim))
+                last_change[victim] = (oi, "touch")
+                probes["existing_file_became_symlink_to_outside"] += 1
+            continue
         if op[0] == "mangle":
             snap = snapshot(out) or {}
             files = sorted(k for k, v in snap.items() if v[0] == "file")
@@ -617,7 +656,13 @@ def _execute(sysm, clock, ops, work, tier, probes, tr, distinct):
             gens_reg = reused_gens + [(g, plug_cfg)]
         else:
             gens_reg = [(g, plug_cfg)]
-        verdict, why = sysm.reference_verdict(srcdir, gens_reg, strip)
+        late_target = None
+        if mgr == "fresh_late":
+            sn = [x["name"] for x in decls if x["kind"] == "struct"]
+            late_target = sn[0] if sn else None
+        verdict, why = sysm.reference_verdict(srcdir, gens_reg, strip, "empty" if mgr == "fresh_empty" else "general", late_target)
+        if mgr in ("fresh_empty", "fresh_late"):
+            probes["manager_" + mgr] += 1
         if verdict != "unparsable" and len(gens_reg) > 1:
             # A reused manager: whether checks registered for EARLIER generators are still "registered" for this command is
             # not fixed by the property (the pinned tree accumulates them; a per-command verifier would not). Certainly
@@ -658,8 +703,13 @@ def _execute(sysm, clock, ops, work, tier, probes, tr, distinct):
                         reused_gens.append((g, plug_cfg))
                         if len(set(x[0] for x in reused_gens)) >= 2:
                             probes["manager_reused_second_generator"] += 1
+                    elif mgr == "fresh_empty":
+                        manager = sysm.codegen.GeneratorManager(sysm.verifier.Verifier())
                     else:
-                        manager = sysm.codegen.GeneratorManager(sysm.verifier.make_general_verifier())
+                        callers_verifier = sysm.verifier.make_general_verifier()
+                        manager = sysm.codegen.GeneratorManager(callers_verifier)
+                        if late_target is not None:
+                            sysm.late_check(callers_verifier, late_target)
                     with contextlib.redirect_stdout(stdout):
                         try:
                             api_result = manager.generate(g, None, None, tree, str(out))
@@ -740,7 +790,9 @@ def _execute(sysm, clock, ops, work, tier, probes, tr, distinct):
             rel = {}
             for x in fitems:
                 try:
-                    rp = os.path.relpath(os.path.realpath(str(x["path"])), os.path.realpath(str(out)))
+                    # the directory part is resolved, the file name itself is not (it may be a symbolic link)
+                    xp = str(x["path"])
+                    rp = os.path.relpath(os.path.join(os.path.realpath(os.path.dirname(xp)), os.path.basename(xp)), os.path.realpath(str(out)))
                 except Exception:
                     rp = str(x["path"])
                 rel[rp] = str(x.get("contents"))
